@@ -52,8 +52,8 @@ def raOfText (present : Bool) (text : String) : RA :=
 /-- script element of the loopback server → what the attempt hands to the executor -/
 def parseEl (entry : String) (canceled : Bool) (el : String) : Att :=
   let el := if el.startsWith "gate" then (el.drop 4).toString else el
-  if el == "slow" then .err { unsupportedScheme := false, isUrlError := entry == "req" && canceled, certNotTrusted := false, stoppedAfterRedirects := false, unknownAuthority := false, isCanceled := canceled }
-  else if el == "err" then .err { unsupportedScheme := false, isUrlError := entry == "req", certNotTrusted := false, stoppedAfterRedirects := false, unknownAuthority := false, isCanceled := false }
+  if el == "slow" then .err { unsupportedScheme := false, isUrlError := entry == "req" && canceled, certNotTrusted := false, stoppedAfterRedirects := false, unknownAuthority := false, isCanceled := canceled, isDeadline := false }
+  else if el == "err" then .err { unsupportedScheme := false, isUrlError := entry == "req", certNotTrusted := false, stoppedAfterRedirects := false, unknownAuthority := false, isCanceled := false, isDeadline := false }
   else
     let cs := el.toList
     let ds := cs.takeWhile Char.isDigit
@@ -191,7 +191,7 @@ def check (st : St) (toks : List String) (obs : Option String) : St × Option St
     agree s!"retry={if a.retryable && !a.aborts then 1 else 0}" { st with nontrivial := st.nontrivial + (if a.retryable then 1 else 0) }
   | "cls" :: "e" :: rest =>
     let b (k : String) : Bool := kvOf rest k == "1"
-    let e : HErr := ⟨b "us", b "url", b "cert", b "redir", b "ua", b "canc"⟩
+    let e : HErr := ⟨b "us", b "url", b "cert", b "redir", b "ua", b "canc", b "dl"⟩
     let a := Att.err e
     agree s!"retry={if a.retryable && !a.aborts then 1 else 0}" { st with nontrivial := st.nontrivial + 1 }
   | ["delay", s, h] =>
